@@ -28,6 +28,7 @@ RULE = (
     "and r == 0; exact multiple => r == 0 and q == cofactor; one indeterminate => deg r < deg divisor; / % divmod "
     "and reflected forms are representation-identical to poly_divide/poly_remainder/poly_divmod. "
     "non-trivial = the monitor saw >= 2 candidate searches (>= 1 subtraction step) and the divisor is not constant."
+    " The narrow-float class also carries complex64 operands and exact multiples scaled by 2**-34..2**-44 (tolerance floor scaled alike)."
 )
 LEVEL_TEXT += (" Operands that share one name tuple stored out of index order (symbols('q1,q0'), set_dimensions) form their own class; numpy scalars on the left of / % divmod are generated too (known finding). A class of half / single precision operands whose quotient coefficients leave the half-precision range (divided in double precision).")
 ASSUMPTIONS = [
@@ -99,6 +100,26 @@ def case_st(draw):
         # half and single precision operands (all values exact in that width) whose quotient coefficients leave
         # the half-precision range: the quotient is a double, the division must end and be right
         n = draw(st.sampled_from(NAMES))
+        variant = draw(st.sampled_from(["range", "range", "complex64", "tiny"]))
+        if variant == "complex64":
+            # single precision complex operands are widened to double precision *complex*
+            cs = st.tuples(st.sampled_from([2, -2, 4, 1, 0, 6]), st.sampled_from([2, -2, 1, 4, -6])).map(list)
+            case["dividend"] = {"names": [n], "shape": [], "kind": "c", "dtype": "complex64", "retain": False,
+                                "terms": [[[2], [draw(cs)]], [[1], [draw(cs)]], [[0], [draw(cs)]]]}
+            case["divisor"] = {"names": [n], "shape": [], "kind": "c", "dtype": "complex64", "retain": False,
+                               "terms": [[[1], [[2, 0]]], [[0], [draw(cs)]]]}
+            return case
+        if variant == "tiny":
+            # (a q + b)(q + d) * 2**-s: an exact multiple with coefficients around 1e-13 .. 1e-10; scaling by a
+            # power of two is exact, so the division must go through as for the unscaled operands
+            a, b = draw(st.sampled_from([1, 2, 3, -2])), draw(st.sampled_from([1, -1, 2, 5]))
+            d, sh = draw(st.sampled_from([1, -1, 2, 3])), draw(st.sampled_from([34, 40, 44]))
+            case["dividend"] = {"names": [n], "shape": [], "kind": "f", "retain": False,
+                                "terms": [[[2], [[4 * a, sh]]], [[1], [[4 * (a * d + b), sh]]], [[0], [[4 * b * d, sh]]]]}
+            case["divisor"] = {"names": [n], "shape": [], "kind": "f", "retain": False,
+                               "terms": [[[1], [4]], [[0], [4 * d]]]}
+            case["tiny"] = sh
+            return case
         dt = draw(st.sampled_from(["float16", "float16", "float32"]))
         c = draw(st.sampled_from([60000, 40000, 32768, 2048]))
         d0 = draw(st.sampled_from([4, 8, -4, 12]))
@@ -257,7 +278,8 @@ def check_case(case, ctx):
     nvars = sorted({v for a in (ddm, dvm) for e in a.flat for v in e.variables()})
     for idx in numpy.ndindex(*shape):
         a, b, qq, rr = ddb[idx], dvb[idx], qm[idx], rm[idx]
-        scale = max(1.0, a.maxabs(), (qq.absval() * b.absval() + rr.absval()).maxabs())
+        scale = max(2.0 ** -case["tiny"] if case.get("tiny") else 1.0,
+                    a.maxabs(), (qq.absval() * b.absval() + rr.absval()).maxabs())
         recomposed = qq * b + rr
         if not mp_close(recomposed, a, 1e-8, scale):
             return fail("identity:%s" % ("zero-divisor-element" if not b else cls),
